@@ -415,7 +415,7 @@ func (e *Exec) poolAssume(fr *Frame, st *State, pool Val, x Val) {
 	self := Val{T: pool.Loc.Base, Typ: e.poolSelfType(k)}
 	env := &SpecEnv{e: e, fr: fr, st: st, old: st, vars: map[string]Val{"x": x, "self": self}, oldVars: map[string]Val{"x": x, "self": self}}
 	for _, c := range invs {
-		e.sc.assume(st.reach, e.specBool(env, c))
+		e.sc.assume(st.reach, e.specBoolA(env, c))
 	}
 	e.sc.used["sync.Pool invariant for "+k+" (checked at Put and at the pool's New function)"] = true
 }
